@@ -433,6 +433,8 @@ def install(spec: Spec):
         g[mod] = ('mod', mod)
     for cls in smt.CLASSES:
         g.setdefault(cls, ('cls', cls))
+    g['IOError'] = ('cls', 'OSError')
+    g['asyncio.InvalidStateError'] = ('cls', 'InvalidStateError')
     g['asyncio.CancelledError'] = ('cls', 'CancelledError')
     g['asyncio.TimeoutError'] = ('cls', 'TimeoutError')
     g['asyncio.QueueFull'] = ('cls', 'QueueFull')
